@@ -750,10 +750,20 @@ func checkIdleExclusive(c *Ctx, fns []*ssa.Function, lf *lockFacts) {
 				}
 			}
 		})
-		if readOK && cleared {
+		// ... and the reply that was read completes a query: the slot that was cleared held a waiter (a reply nobody
+		// waits for says nothing about a query a caller is about to send on this connection)
+		hadWaiter := false
+		for _, g := range guardsOfInstr(site) {
+			if cm, ok := g.asCmp(); ok && isNilConst(cm.Y) && cm.Op == token.NEQ {
+				if k, ok := loadedField(cm.X); ok && k == T+"reusableConn.waitingResp" {
+					hadWaiter = true
+				}
+			}
+		}
+		if readOK && cleared && hadWaiter {
 			return true, "after the reply of its single query was read and the waiter slot cleared"
 		}
-		return false, fmt.Sprintf("(reply read on this path: %v, waiter slot cleared: %v)", readOK, cleared)
+		return false, fmt.Sprintf("(reply read on this path: %v, waiter slot cleared: %v, the reply had a waiter: %v)", readOK, cleared, hadWaiter)
 	}
 	for _, f := range fns {
 		eachInstr(f, func(in ssa.Instruction) {
@@ -794,6 +804,52 @@ func checkIdleExclusive(c *Ctx, fns []*ssa.Function, lf *lockFacts) {
 		}
 		c.check(g && lf.held(w.Instr)[T+"reusableConn.m"] == lockW, "install-waiter@"+funcName(w.Fn), instrPos(w.Instr),
 			"the waiter slot is installed only when empty, under the connection lock", "the single waiter slot is overwritten without checking that it is empty (under c.m): two callers share one connection")
+	}
+	checkSurplusReplyCloses(c)
+}
+
+// checkSurplusReplyCloses (C01-R6 / C09-R7 / C17-R6): on a non-pipelined connection a reply that no caller waits for
+// closes the connection (the property's scope: "a surplus reply while idle must close the connection").
+func checkSurplusReplyCloses(c *Ctx) {
+	T := relTransport + "."
+	rl := c.fn(relTransport, "reusableConn", "readLoop")
+	if rl == nil {
+		return
+	}
+	n := 0
+	eachInstr(rl, func(in ssa.Instruction) {
+		iff, ok := in.(*ssa.If)
+		if !ok {
+			return
+		}
+		for _, truth := range []bool{true, false} {
+			g := guard{Cond: iff.Cond, Truth: truth, If: iff}
+			cm, ok := g.asCmp()
+			if !ok || cm.Op != token.EQL || !isNilConst(cm.Y) {
+				continue
+			}
+			if k, ok := loadedField(cm.X); !ok || k != T+"reusableConn.waitingResp" {
+				continue
+			}
+			n++
+			nilBlk := succOnTruth(iff, truth)
+			isClose := func(x ssa.Instruction) bool {
+				ci, ok := x.(*ssa.Call)
+				return ok && strings.HasSuffix(callName(ci), ".closeWithErr")
+			}
+			_, leak := reachFromBlock(nilBlk, func(x ssa.Instruction) bool {
+				if isReturn(x) {
+					return true
+				}
+				// reading on is also a way out of this branch
+				ci, ok := x.(*ssa.Call)
+				return ok && callName(ci) == "pkg/dnsutils.ReadRawMsgFromTCP"
+			}, isClose)
+			c.check(!leak, "surplus-reply-closes@readLoop", instrPos(iff), "a reply nobody waits for closes the connection", "a reply that no caller waits for is dropped and the connection stays in service: the reader may have taken the reply away from a caller that is just about to register, or the stream is out of step — the next caller on this connection gets another query's reply")
+		}
+	})
+	if n == 0 {
+		c.anchorMissing("test of the waiter slot in reusableConn.readLoop")
 	}
 }
 
